@@ -4,6 +4,15 @@ import json, os
 
 # id -> (technique, level text, design ref)   -- only properties whose rules are built and armed
 CLAIMED = {
+ "C11": ("switch exhaustiveness, per-case value flow of option fields, edge-feasibility of decoder/parser failure edges, whitelist comparison rules",
+         "Parameter dispatch, flow and error discipline of the MAIL/RCPT handlers decided for every case and failure edge. Which strings the hand-written path/mailbox parser accepts versus the RFC 5321 grammar is a whole-language question and is NOT decided.",
+         "DESIGN.md §3 C11"),
+ "C12": ("capability table extracted from SSA guard facts and compared with the reference table by exhaustive truth table; 504-gate table agreement",
+         "The configuration space is finite and consulted only through boolean tests, so the extracted table is the behaviour; compared on every assignment of the configuration atoms. Parameter gates agree with the flags. Capability line syntax beyond the constants and backend mechanism lists are not decided.",
+         "DESIGN.md §3 C12"),
+ "C13": ("shape rules on the status collector (SSA pattern + value flow), attribution of per-recipient replies, fill-before-signal path rules, non-blocking send rules",
+         "Structural conditions that make per-recipient attribution and deadlock-freedom possible, decided on every path and loop. Channel FIFO is language semantics; timing of backend status calls is not decided.",
+         "DESIGN.md §3 C13"),
  "C04": ("path counting of final-reply events on SSA with callee summaries; constant table of reply/enhanced codes; value flow of verdicts; capture rule for delivery goroutines",
          "Exactly one final reply on every path of the dispatcher and each handler (with the frozen, individually checked exceptions), every constant code/enhanced-code pair well-formed and class-consistent, reply line format by value flow, DATA/BDAT verdict only from this transaction's backend result, no transaction-scoped field re-read by the BDAT goroutine. Validity of echoed text and network write ordering are not decided.",
          "DESIGN.md §3 C04"),
